@@ -14,5 +14,6 @@ INVARIANT SuccessIff
 INVARIANT TimeoutIsError
 INVARIANT InterruptIsError
 INVARIANT AfterRun
+INVARIANT BaseSurvives
 CONSTRAINT ExportC
 CHECK_DEADLOCK FALSE
